@@ -154,6 +154,25 @@ def gen_area_case(rng, sph, force=None):
     if m0 is not None:
         m['min depth'] = m0
         m['max depth'] = m1
+        series = kind == 'temperature' and spec.get('name') in ('half space model', 'plate model', 'plate model constant age')
+        if not series and force is None and rng.random() < 0.3:
+            # the model's own range as surfaces: values listed at every polygon corner and one interior point sample an affine function
+            # of the surface coordinates (reproduced exactly by the piecewise linear interpolation); min, max or both
+            span = d1 - d0
+
+            def affine(base):
+                return (base, rng.uniform(-1, 1) * 0.1 * span / hw, rng.uniform(-1, 1) * 0.1 * span / hw, cx, cy)
+
+            def table(fn):
+                pts = [tuple(p) for p in poly] + [(wg.R(cx + rng.uniform(-0.5, 0.5) * hw), wg.R(cy + rng.uniform(-0.5, 0.5) * hw))]
+                return [[wg.R(fn[0])]] + [[wg.R(fn[0] + fn[1] * (px - fn[3]) + fn[2] * (py - fn[4])), [[px, py]]] for (px, py) in pts]
+            which = rng.choice(['min', 'max', 'both'])
+            if which in ('min', 'both') and m0 - 0.1 * span > 0 and not any(p[0] == 0.0 or p[1] == 0.0 for p in poly):
+                spec['m0_fn'] = affine(m0)
+                m['min depth'] = table(spec['m0_fn'])
+            if which in ('max', 'both') and not any(p[0] == 0.0 or p[1] == 0.0 for p in poly):
+                spec['m1_fn'] = affine(m1)
+                m['max depth'] = table(spec['m1_fn'])
     elif need_max:
         m1 = d1 if rng.random() < 0.5 else wg.R(d1 * rng.uniform(1.0, 1.5))
         m['max depth'] = m1
@@ -178,6 +197,12 @@ def gen_area_case(rng, sph, force=None):
         else:
             sx, sy = rng.uniform(cx - 0.9 * hw, cx + 0.9 * hw), rng.uniform(cy - 0.9 * hw, cy + 0.9 * hw)
         d = rng.uniform(d0, d1) if rng.random() < 0.9 else rng.choice([d0, d1])
+        fns = [spec[k] for k in ('m0_fn', 'm1_fn') if k in spec]
+        if fns and rng.random() < 0.5:
+            # around the local bound of a range given as a surface
+            b, bx, by, xm, ym = rng.choice(fns)
+            d = b + bx * (sx - xm) + by * (sy - ym) + rng.uniform(-0.15, 0.15) * (d1 - d0)
+            d = max(d0, min(d1, d))
         pts.append((sx, sy, d))
     return doc, ctx, spec, pts, (cx, cy, hw)
 
@@ -224,12 +249,23 @@ def expected_area(spec, ctx, sx, sy, d):
     """-> dict prop -> expected block (list) or None (not judged); 'margin' True when too close to a range boundary"""
     g = spec['g']
     d0, d1, m0, m1 = spec['d0'], spec['d1'], spec['m0'], spec['m1']
-    in_model = m0 <= d <= m1
     eps = 1e-9 * max(d1, 1.0)
+    if 'm0_fn' in spec:
+        b, bx, by, xm, ym = spec['m0_fn']
+        m0 = b + bx * (sx - xm) + by * (sy - ym)
+        eps = 1e-7 * max(d1, 1.0)
+    if 'm1_fn' in spec:
+        b, bx, by, xm, ym = spec['m1_fn']
+        m1 = b + bx * (sx - xm) + by * (sy - ym)
+        eps = 1e-7 * max(d1, 1.0)
+    in_model = m0 <= d <= m1
     if min(abs(d - m0), abs(d - m1)) < eps:
         return None
     bg = adiabat(g, d)
     out = {}
+    if 'm0_fn' in spec or 'm1_fn' in spec:
+        out['_surface'] = True      # nodal values carry 12 digits: the interpolated bound is the affine function to ~1e-12 only (and
+                                    # the chapman polynomial cancels: 2.3e-10 observed on a value of 0.8 K)
     kind = spec['kind']
     if kind == 'temperature':
         name = spec['name']
@@ -784,6 +820,8 @@ def main(tier, seed, replay):
             if exp.get('_loose'):
                 tol = 1e-10
             tol += exp.get('_extra_tol', 0.0)
+            if exp.get('_surface'):
+                tol = max(tol, 1e-9)
             if '_converged' in exp:
                 # the documentation names the model, not the number of terms: judge the formula where the tail beyond the
                 # implementation's 100 terms is negligible, and the identically truncated sum elsewhere
